@@ -276,6 +276,8 @@ def _features(c):
             f.add("mutate_derived_likelihood")
         if act == "mutate_original" and any(a in ("cond_factor", "copy_enable_fd") and oo == o for a, oo, _ in c["hist"][:pos]):
             f.add("mutate_original_after_deriving")
+        if act == "mutate_copy" and any(a == "to_likelihood" and oo == o for a, oo, _ in c["hist"][:pos]):
+            f.add("mutate_underlying_of_likelihood")
         if act in ("mutate_copy", "mutate_original"):
             mutated = True
         if act in CREATING:
@@ -358,6 +360,9 @@ def replay_case(ctx, case, par, r, sweeps, seed):
                             _skip(ctx, act, "no_numeric_parameter")
                             return
                     e["fp"] = pool.fingerprint(e)        # this object was changed deliberately; all others must be unchanged
+                    for d in pool.objs:                  # ... except its views (likelihoods made by to_likelihood() wrap it)
+                        if d.get("view_of") is e:
+                            d["fp"] = pool.fingerprint(d)
                 elif act == "to_likelihood":
                     # two realisations of the spec's action: the method, and conditioning on the data alone.  Both objects are
                     # made and followed; which of them is the spec's new object alternates
@@ -367,8 +372,10 @@ def replay_case(ctx, case, par, r, sweeps, seed):
                     first, second = (via_method, via_call) if how == "method" else (via_call, via_method)
                     ctx.facets["to_likelihood/" + how] = ctx.facets.get("to_likelihood/" + how, 0) + 1
                     if second is not e["obj"]:
-                        pool.add(second, "lik", v=e["v"], hidden=True)
-                    new = (first, "lik", {}, e["v"], {"view": how == "method"})
+                        hid = pool.add(second, "lik", v=e["v"], hidden=True)
+                        if second is via_method:
+                            hid["view_of"] = e
+                    new = (first, "lik", {}, e["v"], {"view": how == "method", "view_of": e if how == "method" else None})
                 elif act == "copy_enable_fd":
                     if hasattr(e["obj"], "enable_FD"):
                         cpy = e["obj"]()
@@ -527,7 +534,7 @@ def run(ctx):
     allcases = cases + simcases + cases4
     feats = {json.dumps(c, sort_keys=True): _features(c) for c in allcases}
     wanted = ["act:condition", "act:logd", "act:gradient", "act:run_sampler", "act:gibbs", "act:apply_model", "act:mutate_copy", "act:cond_factor", "act:to_likelihood",
-              "act:copy_enable_fd", "act:sample", "act:bad_call", "act:mutate_original", "mutate_derived_likelihood", "mutate_original_after_deriving", "staged_condition", "staged_condition_n4", "gibbs_on_cond",
+              "act:copy_enable_fd", "act:sample", "act:bad_call", "act:mutate_original", "mutate_derived_likelihood", "mutate_original_after_deriving", "mutate_underlying_of_likelihood", "staged_condition", "staged_condition_n4", "gibbs_on_cond",
               "sampler_on_cond", "derive_from_cond", "observe_after_mutate", "two_stage_partial_n4"]
     for ft in wanted:
         have = sum(1 for c in plan if ft in feats[json.dumps(c, sort_keys=True)])
